@@ -83,7 +83,8 @@ pub fn push_send(request: reqwest::RequestBuilder) -> PushSendFuture {
 }
 
 /// Drop-in for `tokio::sync::mpsc` as used by the actors: the capacity passes
-/// through `capacity`, and every `send` is preceded by a preemption point.
+/// through `capacity`, and every `send` has a preemption point before it and one
+/// between reserving the slot and filling it.
 pub mod mpsc {
     pub use tokio::sync::mpsc::error;
     pub use tokio::sync::mpsc::Receiver;
@@ -107,7 +108,17 @@ pub mod mpsc {
         /// See `tokio::sync::mpsc::Sender::send`.
         pub async fn send(&self, value: T) -> Result<(), error::SendError<T>> {
             super::point("mailbox.send");
-            self.0.send(value).await
+            // `tokio::sync::mpsc::Sender::send` is `reserve` followed by `Permit::send`.
+            // On a multi-threaded runtime other tasks run between the two steps (the
+            // receiver may be closed or dropped there), hence the second point.
+            match self.0.reserve().await {
+                Ok(permit) => {
+                    super::point("mailbox.reserved");
+                    permit.send(value);
+                    Ok(())
+                }
+                Err(_) => Err(error::SendError(value)),
+            }
         }
     }
 
